@@ -403,7 +403,7 @@ def run(tier, seed):
     deductive_eof(res, agg, tier)
     # ExtendedEOF / OPA / bootstrap members are EOF analyses of derived matrices: what they hand to the inner EOF (centring, names, options)
     from props.C07 import deductive_inner_models
-    deductive_inner_models(res, agg)
+    deductive_inner_models(res, agg, aspects=("preprocessing",), models=("ExtendedEOF",))
     agg.flush()
     run_bounded(res, tier, seed)
     return res
